@@ -600,6 +600,24 @@ class Model(CallsMixin, BuiltinsMixin):
             lead = self.broadcast(da[:-2], db[:-2], None)
             out = ARR(tuple(lead or ()) + (da[-2], db[-1]), 'f')
         out.taint = a.taint | b.taint
+        # the contracted axis enumerates a PAIR of indices on both sides (a
+        # merged bond (r1, r2)): the two operands must enumerate the pair in
+        # the same order, otherwise the product pairs entry (i, j) of one
+        # side with entry (j, i) of the other
+        if a.lay is not None and b.lay is not None and len(db) >= 2:
+            la_, lb_ = a.lay[-1], b.lay[0 if len(db) == 2 else -2]
+            from .layout import layouts_conflict as _lc
+            if la_ is not None and lb_ is not None:
+                if _lc(la_, lb_):
+                    self.site('S-layout', node, 'violation',
+                              'the contracted axis is a merged pair of '
+                              'indices enumerated as %s (fastest first) on '
+                              'the left and as %s on the right'
+                              % (la_, lb_))
+                elif len(la_) >= 2 and len(la_) == len(lb_) and all(
+                        same(x_, y_) for x_, y_ in zip(la_, lb_)):
+                    self.site('S-layout', node, 'ok',
+                              'merged pair enumerated alike on both sides')
         if len(da) == 2 and len(db) == 2 and (a.lay is not None or
                                               b.lay is not None):
             # the rows keep the composite order of the left operand's rows,
